@@ -80,7 +80,7 @@ def run(name, tier='quick', extra=''):
         print('patch does not apply:', r.stderr)
         return 1
     try:
-        r = sh('cd %s && VERIF_EVIDENCE_DIR=/tmp/seed_evidence VERIF_NO_FIDELITY=1 ./vc check %s --tier %s %s' % (VERIF, prop, tier, extra), timeout=7200)
+        r = sh('cd %s && VERIF_EVIDENCE_DIR=/tmp/seed_evidence VERIF_NO_FIDELITY=1 VERIF_FAIL_FAST=1 ./vc check %s --tier %s %s' % (VERIF, prop, tier, extra), timeout=7200)
         lines = [l for l in r.stdout.split('\n') if l.startswith(('VIOLATION', 'UNDECIDED', 'KNOWN', 'property', '  detail'))]
         print('\n'.join(l[:400] for l in lines))
         print('exit', r.returncode)
